@@ -296,3 +296,42 @@ def SymDB.run (vs : S → List V) (score : S → S → Option D) :
       (rr.1, r.2 :: rr.2)
 end db
 end Prs
+
+/-! ### LookupDB object queried repeatedly -/
+namespace Prs
+section lookdb
+variable {S D : Type} [DecidableEq S] [DecidableEq D]
+
+/-- `LookupDB` object: the stored sequences and the stored dictionary sequence ↦ positions -/
+structure LookDB (S : Type) where
+  seqs : List S
+  dict : List (S × List Nat)
+
+def LookDB.build (xs : List S) : LookDB S := ⟨xs, (dedup xs).map fun s => (s, positionsOf xs s)⟩
+
+/-- `seq_dict[s]` or nothing -/
+def LookDB.get (db : LookDB S) (s : S) : List Nat :=
+  match db.dict.find? (fun kv => kv.1 == s) with
+  | some kv => kv.2
+  | none => []
+
+/-- `LookupDB.lookup` reading the STORED dictionary; returns the (unchanged) object and the answer -/
+def LookDB.lookup (nb : S → List S) (cd : S → S → D) (keep : D → Bool) (pdist : Bool)
+    (db : LookDB S) (qs : List S) (k : Nat) : LookDB S × List (Trip D) :=
+  (db, qs.zipIdx.flatMap fun qi =>
+    (bfsBall nb qi.1 k).flatMap fun pe =>
+      (db.get pe.1).filterMap fun j =>
+        if pdist && qi.2 == j then none
+        else
+          let d := cd qi.1 pe.1
+          if keep d then some (qi.2, j, d) else none)
+
+def LookDB.run (nb : S → List S) (cd : S → S → D) (keep : D → Bool) (pdist : Bool) (k : Nat) :
+    LookDB S → List (List S) → LookDB S × List (List (Trip D))
+  | db, [] => (db, [])
+  | db, qs :: rest =>
+      let r := LookDB.lookup nb cd keep pdist db qs k
+      let rr := LookDB.run nb cd keep pdist k r.1 rest
+      (rr.1, r.2 :: rr.2)
+end lookdb
+end Prs
